@@ -12,6 +12,7 @@ import (
 	"path/filepath"
 	"sort"
 	"strconv"
+	"strings"
 	"sync"
 	"testing"
 	"time"
@@ -179,6 +180,15 @@ func (e *Evidence) flush() {
 // Main is the TestMain body shared by all property packages.
 func Main(m *testing.M) {
 	slog.SetDefault(slog.New(slog.NewTextHandler(io.Discard, &slog.HandlerOptions{Level: slog.LevelError + 10})))
+	// A fuzz worker's stdout is a pipe nobody drains: cedar's own fmt.Printf
+	// diagnostics (FS and token paths) would block the worker once it fills.
+	for _, a := range os.Args {
+		if strings.HasPrefix(a, "-test.fuzzworker") {
+			if dn, err := os.OpenFile(os.DevNull, os.O_WRONLY, 0); err == nil {
+				os.Stdout = dn
+			}
+		}
+	}
 	code := m.Run()
 	evMu.Lock()
 	for _, e := range evAll {
